@@ -675,6 +675,31 @@ impl Gen {
             }
             _ => {}
         }
+        // both bodies of an if / else end in a return now and then (the end label is then reached
+        // only through a nested `if`)
+        if let (Some(Bodies::If(eb)), Bodies::If(_), Ty::Prim(rt)) = (&els, &body, result) {
+            if self.rng.chance(1, 4) {
+                let rt = *rt;
+                let ends = |b: &Vec<St>| matches!(b.last(), Some(St::Ret(_) | St::Brk | St::Cont));
+                let mut eb2 = eb.clone();
+                let mut tb2 = match &body { Bodies::If(b) => b.clone(), Bodies::Loop(b) => b.clone() };
+                // in the clean stream an `if` stays the last statement of its body (finding F2)
+                let f2 = self.cfg.allow_f2_f3;
+                let okc = |b: &Vec<St>| f2 || !matches!(b.last(), Some(St::If(_)));
+                if !ends(&eb2) && okc(&eb2) {
+                    eb2.push(St::Ret(Ex::single(EV::Lit(prim_lit(&mut self.rng, rt)))));
+                }
+                if !ends(&tb2) && okc(&tb2) {
+                    tb2.push(St::Ret(Ex::single(EV::Lit(prim_lit(&mut self.rng, rt)))));
+                }
+                els = Some(Bodies::If(eb2));
+                return self.finish_if(cond, Bodies::If(tb2), els, elif);
+            }
+        }
+        self.finish_if(cond, body, els, elif)
+    }
+
+    fn finish_if(&mut self, cond: IfC, body: Bodies, mut els: Option<Bodies>, mut elif: Option<Box<IfS>>) -> Option<IfS> {
         if self.fault("B10-else-dup") {
             if els.is_none() {
                 els = Some(Bodies::If(vec![]));
@@ -709,6 +734,13 @@ impl Gen {
                 }
             }
             return Some(if self.rng.chance(1, 2) { St::Brk } else { St::Cont });
+        }
+        // a plain if / else body ends in a (nested) return often enough for an if / else whose
+        // bodies both return, around a nested `if`, to occur in every run (seeded change C10-c)
+        if kind == 0 && last && self.rng.chance(1, 5) {
+            if let Some(e) = self.expr(result, 0) {
+                return Some(St::Ret(e));
+            }
         }
         let r = if self.cfg.simple {
             // control-flow skeletons: half of the statements are control statements
